@@ -22,13 +22,17 @@ type detCase struct {
 		K string `json:"k"`
 		V goval  `json:"v"`
 	} `json:"gdata"`
-	Files []treeFile `json:"files"`
-	Cfg   treeCfg    `json:"cfg"`
-	Page  string     `json:"page"`
-	Datas [][]tpair  `json:"datas"` // kind "tree": data maps rendered one after the other on ONE loaded Template
-	Steps []string   `json:"steps"` // kind "seq": sources rendered one after the other in this process
-	ExpOk []bool     `json:"expok"` // kind "seq": does step k render (true) or fail (false), whatever ran before
-	Tags  []string   `json:"tags"`
+	Files     []treeFile `json:"files"`
+	Cfg       treeCfg    `json:"cfg"`
+	Page      string     `json:"page"`
+	Datas     [][]tpair  `json:"datas"` // kind "tree": data maps rendered one after the other on ONE loaded Template
+	Steps     []string   `json:"steps"` // kind "seq": sources rendered one after the other in this process
+	TreeSteps []struct {
+		Files []treeFile `json:"files"`
+		Want  string     `json:"want"`
+	} `json:"tsteps"` // kind "treeseq": directories loaded and rendered one after the other, each with the output its files say
+	ExpOk []bool   `json:"expok"` // kind "seq": does step k render (true) or fail (false), whatever ran before
+	Tags  []string `json:"tags"`
 }
 
 func detOnce(c detCase) (sig string, err error) {
@@ -69,6 +73,29 @@ func detOnce(c detCase) (sig string, err error) {
 				return fmt.Sprintf("DIFFERS step %d: %q gave %q before and %q now", i+1, src, prev, sig), nil
 			}
 			seen[src] = sig
+			sigs = append(sigs, sig)
+		}
+		return strings.Join(sigs, " ; "), nil
+	case "treeseq":
+		var sigs []string
+		for i, st := range c.TreeSteps {
+			root, serr := setupTree(st.Files, c.Cfg)
+			if serr != nil {
+				return "", serr
+			}
+			tpl, lerr := textwire.NewTemplate(&config.Config{TemplateDir: c.Cfg.Dir, TemplateExt: c.Cfg.Ext})
+			sig := ""
+			if lerr != nil {
+				sig = "LOADERR " + strings.ReplaceAll(lerr.Error(), root, "$ROOT")
+			} else if out, ferr := tpl.String(c.Page, nil); ferr != nil {
+				sig = "ERR " + strings.ReplaceAll(ferr.String(), root, "$ROOT")
+			} else {
+				sig = "OUT " + out
+			}
+			cleanupTree(root)
+			if sig != st.Want {
+				return fmt.Sprintf("DIFFERS step %d: the directory renders %q; its files say %q", i+1, sig, st.Want), nil
+			}
 			sigs = append(sigs, sig)
 		}
 		return strings.Join(sigs, " ; "), nil
